@@ -368,6 +368,13 @@ def generate(rng, tier):
     for i in range(20000 if big else 1500):
         par = rng.random() < 0.1
         out.append(Case(gen_program(rng, big, rng.random() < 0.1, par=par, v2=True), H2, ('program', 'abi2-addlink') + (('concurrent-section',) if par else ())))
+    # many of each kind on one span: more events / distinct attribute keys / (ABI v2) links than any plausible built-in limit
+    # (the statement has none: "the events and links in call order", "the attributes with last-write-wins per key")
+    for n_many in ([129, 300] if not big else [33, 65, 128, 129, 130, 257, 300, 1025]):
+        evs = ' ; '.join((f'ev {hx(b"e%d" % i)}' if i % 3 else f'eva {hx(b"e%d" % i)} 6b=i:{i}') for i in range(n_many))
+        out.append(Case(f'span sb - 6c/-/- 6e 0 0 0 - - ; {evs} ; end 0 ; flush', H, ('program', 'many-events', f'n={n_many}')))
+        ats = ' ; '.join(f'attr {hx(b"k%d" % i)} i:{i}' for i in range(n_many))
+        out.append(Case(f'span sb - 6c/-/- 6e 0 0 0 - - ; {ats} ; attr {hx(b"k0")} i:7 ; end 0 ; flush', H, ('program', 'many-attributes', f'n={n_many}')))
     # every alternative as the later write over every alternative as the earlier write (16 x 16), on simple+batch
     for a in ALTS:
         for b in ALTS:
